@@ -786,7 +786,8 @@ pub fn driver_main(prop: Arc<dyn Prop>, tier: Tier) -> i32 {
     });
     let edir = root.join("evidence");
     let _ = std::fs::create_dir_all(&edir);
-    let epath = edir.join(format!("{id}.json"));
+    // VERIF_EVIDENCE_SUFFIX: secondary passes (e.g. the AddressSanitizer replay of C19) keep their own file
+    let epath = edir.join(format!("{id}{}.json", std::env::var("VERIF_EVIDENCE_SUFFIX").unwrap_or_default()));
     if let Err(e) = std::fs::write(&epath, serde_json::to_string_pretty(&ev).unwrap()) {
         eprintln!("machinery: cannot write evidence {epath:?}: {e}");
         return 2;
